@@ -36,9 +36,9 @@ def run_devices(ctx, jobs_spec, n_random_maps, observe="all"):
         futs = []
         for name, cfg, workers, sim in jobs_spec:
             if sim:
-                futs.append(ex.submit(run_tlc, ctx, "Devices", cfg, name, workers, sim[0], sim[1]))
+                futs.append(ex.submit(run_tlc, ctx, "Devices", cfg, name, workers, sim[0], sim[1], 3000))
             else:
-                futs.append(ex.submit(run_tlc, ctx, "Devices", cfg, name, workers))
+                futs.append(ex.submit(run_tlc, ctx, "Devices", cfg, name, workers, None, None, 3000))
         results = [tlc_ok(f.result()) for f in futs]
         bindir = fb.result()
     emitting = [r for r in results if r["n"] > 0]
@@ -49,7 +49,7 @@ def run_devices(ctx, jobs_spec, n_random_maps, observe="all"):
     maps = maps_for(ctx, n_random_maps)
     mp = os.path.join(ctx.out, "maps.json")
     json.dump(maps, open(mp, "w"))
-    mism, summary, _ = run_bin(bindir, "devices", ["replay", allb, mp, "--observe", observe], timeout=1500)
+    mism, summary, _ = run_bin(bindir, "devices", ["replay", allb, mp, "--observe", observe], timeout=3000)
     ctx.evaluations += summary.get("replays", 0)
     ctx.traces += summary.get("behaviours", 0)
     ctx.extra["replay_summary"] = summary
@@ -97,10 +97,11 @@ ASSUME = ["timestamps are ranks in the specification; the device code only compa
 def c08(ctx):
     q = ctx.tier == "quick"
     two = ["invert", "gear"]
-    jobs = [
-        ("single2", dev_cfg("single", two, 4 if q else 5, rich=not q), 4, None),
+    jobs = ([] if q else [("single2rich", dev_cfg("single", two, 3, rich=True), 4, None)]) + [
+        ("single2", dev_cfg("single", two, 4 if q else 5, rich=False), 4, None),
         ("singleN", dev_cfg("single", ["axle", "diff"], 3 if q else 4, rich=False), 4, None),
-        ("sim", dev_cfg("single", ["invert", "gear", "axle", "diff"], 10 if q else 16, rich=not q), 2, (120 if q else 3000, 12 if q else 18)),
+        ("consistent", dev_cfg("single", ["consistent"], 2 if q else 3, rich=False), 2, None),   # reads that already satisfy the constraint
+        ("sim", dev_cfg("single", ["invert", "gear", "axle", "diff"], 10 if q else 16, rich=not q), 2, (120 if q else 400, 12 if q else 18)),
     ]
     run_devices(ctx, jobs, 1 if q else 4, observe="state")
     ctx.rule = ("One device per scenario (inverter; gear train with ratios 2, -1/2, 3[, -1/4, -1] or built from tooth lists of length 2..6; "
@@ -118,8 +119,8 @@ def c13(ctx):
     q = ctx.tier == "quick"
     jobs = [
         ("chain", dev_cfg("chain", [], 4 if q else 5, rich=False), 4, None),
-        ("single", dev_cfg("single", ["invert", "gear", "axle"], 3 if q else 4, rich=not q), 4, None),
-        ("simchain", dev_cfg("chain", [], 12, rich=not q), 2, (120 if q else 3000, 14)),
+        ("single", dev_cfg("single", ["invert", "gear", "axle"], 3, rich=not q), 4, None),
+        ("simchain", dev_cfg("chain", [], 12, rich=not q), 2, (120 if q else 300, 14)),
     ]
     run_devices(ctx, jobs, 1 if q else 4, observe="cmd")
     ctx.rule = ("Chains ext0 - D1 .. Dn - extn (n = 1..3) of inverters, gear trains and axles, commands entering at either end or at an "
